@@ -2,7 +2,7 @@
 import itertools
 
 from . import gen, ref, run
-from .props import net_props, worlds, chunks, thorough, judge_all, ctx_spec, judge_groups
+from .props import cnt, net_props, worlds, chunks, thorough, judge_all, ctx_spec, judge_groups
 
 HOSTILE_NAMES = ["x", "xx", "xxx", "y", "z", "var0", "var1", "E", "A", "V", "3", "3x", "EX", "AGx",
                  "_", "a", "true", "x_1", "é", "λ", "1x", "in"]
@@ -67,7 +67,7 @@ def gen_C05(chk):
     chk.notes.append("token sequences over %d symbols enumerated completely up to length %d "
                      "(balanced ones beyond length 3)" % (len(ALPHABET), maxlen))
     # random longer sequences over the larger alphabet, with whitespace variations
-    for j in range(6000 if thorough(chk) else 1500):
+    for j in range(cnt(chk, 1500, 6000)):
         L = rng.randint(3, 12)
         seq = [rng.choice(ALPHABET_T) for _ in range(L)]
         sep = [rng.choice([" ", " ", "", "  ", "\t", "\n"]) for _ in range(L + 1)]
@@ -75,7 +75,7 @@ def gen_C05(chk):
         add_parse(chk, s, rng.random() < 0.3, "rndseq")
     # valid formulae rendered with variations, and their mutations
     props = ["a", "b", "p_1", "EXa", "3x", "Vv", "E", "A1", "été", "AX_a", "EU_b", "AF_", "EG_1x"]
-    for j in range(3000 if thorough(chk) else 800):
+    for j in range(cnt(chk, 800, 3000)):
         ext = rng.random() < 0.5
         f = gen.random_formula(rng, rng.randint(1, 8), props, max_vars=3,
                                wilds=(("w",) if ext else ()), doms=(("d",) if ext else ()),
@@ -231,7 +231,7 @@ def gen_C06(chk):
                      % (len(pool), "" if thorough(chk) else " sampled"))
     for t in pool:
         add_tree(chk, t, "exh")
-    for j in range(3000 if thorough(chk) else 700):
+    for j in range(cnt(chk, 700, 3000)):
         t = gen.random_formula(rng, rng.randint(3, 25), rng.sample(GOOD_NAMES, 5), scope=["x"], max_vars=4,
                                wilds=("w", "W2"), doms=("d", "D_2"), binops=gen.BINOPS, names=GOOD_NAMES)
         add_tree(chk, t, "deep")
@@ -239,7 +239,7 @@ def gen_C06(chk):
         s = minimal_render(t, rng)
         cid = chk.add_front("PARSE", ["1", gen.hx(s)], tag="parsed", meta={"s": s, "ext": True})
         chk.cases[cid]["check_fields"] = True
-    for j in range(1000 if thorough(chk) else 300):
+    for j in range(cnt(chk, 300, 1000)):
         t = gen.random_formula(rng, rng.randint(2, 14), props, max_vars=4, wilds=("w",), doms=("d",),
                                binops=gen.BINOPS, names=HOSTILE_NAMES[:12])
         cid = chk.add_front("PREP", ["1", ",".join(gen.hx(p) for p in props), gen.hx(gen.render(t))],
@@ -293,7 +293,7 @@ def judge_C06(chk):
 def gen_C07(chk):
     rng = chk.rng
     props = ["a", "b", "x"]
-    for j in range(6000 if thorough(chk) else 1500):
+    for j in range(cnt(chk, 1500, 6000)):
         r = rng.random()
         scope = []
         t = gen.random_formula(rng, rng.randint(1, 12), props + (["zz"] if r < 0.1 else []), scope=scope,
@@ -351,7 +351,7 @@ def judge_C07(chk):
                 chk.record(cid, ("violation", "%s rejected as %s, expected %s" % (gen.render(t), i[1], problem)))
     # idempotence: preprocessing the result again changes nothing
     ids = []
-    for cid, got in extra[: (3000 if thorough(chk) else 600)]:
+    for cid, got in extra[: cnt(chk, 600, 3000)]:
         c2 = chk.add_front("PREP", ["0", chk.cases[cid]["fields"][1], gen.hx(gen.render(got))], tag="idem",
                            meta={"t": got, "props": chk.cases[cid]["meta"]["props"]})
         chk.cases[c2]["second"] = cid
@@ -368,11 +368,11 @@ def judge_C07(chk):
 # ------------------------------------------------------------------ C08
 def gen_C08(chk):
     rng = chk.rng
-    ws = worlds(chk, quick_names=["N02", "N05", "N06", "N09", "N16", "N21"], n_random=(8 if thorough(chk) else 2))
+    ws = worlds(chk, quick_names=["N02", "N05", "N06", "N09", "N16", "N21"], n_random=cnt(chk, 2, 8))
     pool_names = ["x", "xx", "xxx", "y", "zz", "var0", "E", "V", "3"]
     for nm, net in ws:
         props = net_props(net)
-        for j in range(30 if thorough(chk) else 8):
+        for j in range(cnt(chk, 8, 30)):
             f = gen.random_formula(rng, rng.randint(2, 8), props, max_vars=3, binops=gen.BINOPS)
             k = gen.quant_depth(f)
             group = []
@@ -427,7 +427,7 @@ def gen_C09(chk):
     props = ["a", "b", "Vv", "3x"]
     seen = set()
     trees = []
-    for j in range(1500 if thorough(chk) else 400):
+    for j in range(cnt(chk, 400, 1500)):
         ext = rng.random() < 0.5
         t = gen.random_formula(rng, rng.randint(2, 12), props, max_vars=4, wilds=(("w", "V3") if ext else ()),
                                doms=(("d", "e") if ext else ()), binops=gen.BINOPS, w_hybrid=0.45)
@@ -441,7 +441,7 @@ def gen_C09(chk):
             chk.add_front("CANON", [gen.hx(txt)], tag="canon", meta={"t": s, "s": txt})
     # duplicate marking on batches with planted overlaps
     from .props import planted_batch
-    for j in range(400 if thorough(chk) else 120):
+    for j in range(cnt(chk, 120, 400)):
         ext = rng.random() < 0.6
         fs = planted_batch(rng, props[:2], ext) if rng.random() < 0.7 else [rng.choice(trees) for _ in range(rng.randint(1, 4))]
         if rng.random() < 0.3:
@@ -513,7 +513,7 @@ def judge_C09(chk):
             chk.record(cid, ("violation", "sub-formulae equal up to renaming get different canonical forms %r / %r" % (c[0], c[1])))
     # idempotence
     ids = []
-    for canon in list(by_canon.keys())[: (4000 if thorough(chk) else 800)]:
+    for canon in list(by_canon.keys())[: cnt(chk, 800, 4000)]:
         c2 = chk.add_front("CANON", [gen.hx(canon)], tag="canon-idem", meta={"s": canon, "t": None})
         chk.cases[c2]["idem"] = canon
         ids.append(c2)
@@ -537,7 +537,7 @@ def judge_C09(chk):
                 d = tuple(sorted((idx, doms.get(v)) for v, idx in free_order.items()))
                 occ[(repr(form), d)] = occ.get((repr(form), d), 0) + 1
         for item in i[1].split(","):
-            head, cnt = item.rsplit("#", 1)
+            head, cntv = item.rsplit("#", 1)
             canon_hex, doms_s = head.split("[", 1)
             doms_s = doms_s.rstrip("]")
             canon = gen.unhx(canon_hex)
@@ -553,19 +553,19 @@ def judge_C09(chk):
                     dd[gen.unhx(v)] = None if d == "_" else gen.unhx(d)
             d = tuple(sorted((idx, dd.get(v)) for v, idx in free_order.items()))
             have = occ.get((repr(form), d), 0)
-            if have < int(cnt) + 1:
+            if have < int(cntv) + 1:
                 chk.record(cid, ("violation", "duplicate %r with domains %s reported with counter %s but occurs %d time(s)"
-                                 % (canon, dd, cnt, have)))
+                                 % (canon, dd, cntv, have)))
     judge_front(chk)
 
 
 # ------------------------------------------------------------------ C14
 def gen_C14(chk):
     rng = chk.rng
-    ws = worlds(chk, quick_names=["N02", "N05", "N06", "N09", "N17"], n_random=(6 if thorough(chk) else 2))
+    ws = worlds(chk, quick_names=["N02", "N05", "N06", "N09", "N17"], n_random=cnt(chk, 2, 6))
     for nm, net in ws:
         props = net_props(net)
-        for j in range(120 if thorough(chk) else 40):
+        for j in range(cnt(chk, 40, 120)):
             ext = rng.random() < 0.6
             f = gen.random_formula(rng, rng.randint(1, 9), props + (["nope"] if rng.random() < 0.1 else []), max_vars=3,
                                    wilds=(("p", "q") if ext else ()), doms=(("d",) if ext else ()),
@@ -602,7 +602,7 @@ def gen_C14(chk):
             chk.add_eval(net, 0, "s", ["(" * depth + props[0] + ")" * (depth - 1)], tag="nesting", netname=nm)
         # random garbage
         alphabet = list("ab{}()!@3V:~&|^=<>%EXAUFGW _\\in") + NONASCII + NOT_NAME + UWS
-        for j in range(100 if thorough(chk) else 30):
+        for j in range(cnt(chk, 30, 100)):
             s = "".join(rng.choice(alphabet) for _ in range(rng.randint(0, 14)))
             chk.add_eval(net, rng.randint(0, 2), rng.choice(["s", "es", "e", ""]), [s],
                          ctx=[("p", "u")] if rng.random() < 0.5 else [], tag="garbage", netname=nm)
